@@ -3,6 +3,7 @@
    length of the bytes it was given — the model analogue of the bincode limit = footer
    length — and its nat recursion counts are bounded by that length.  read_footer / ropen
    over any tame stream never crash and never run out of fuel, for ANY 4-byte length field. *)
+From MLA Require Import Limit.
 From MLA Require Import Base Stream Blocks Reader Total.
 From Coq Require Import ZifyBool ZifyNat ZifyN.
 Open Scope N_scope.
@@ -109,6 +110,7 @@ Proof.
 Qed.
 
 Section FooterReader.
+  Context {LIM : Limit}.
   Variable S : Stream.
   Variable I : st S -> Prop.
   Variable pos : st S -> N.
@@ -138,6 +140,7 @@ Section FooterReader.
     destruct (read_full S (Datatypes.S (N.to_nat (le_val l4))) s3 (le_val l4)) as [s4 [b|e|c]]; try exact H4.
     - destruct H4 as (Hs4 & Hl & Hp & HM).
       destruct (parse_footer_map b) as [m|] eqn:Em; [|split; [exact Hs4|discriminate]].
+      destruct (N.min (le_val l4) lim <? len (ser_footer_map m)); [split; [exact Hs4|discriminate]|].
       split; [exact Hs4|]. apply parse_footer_map_alloc in Em.
       destruct (N.eq_dec (len b) 0) as [E|E]; [pose proof (footer_alloc_entries m); lia|].
       specialize (HM E). lia.
